@@ -222,7 +222,9 @@ def recover_moves(prog, table):
                                                                                    for _, _, c in sites):
                 continue
             callers_now = {q2 for q2, _, _ in sites}
-            if _jacc(callers_ref, callers_now) < 0.5:
+            gone_q = {q for q in known if q not in prog.functions}
+            new_q = {q for q in prog.functions if q not in known}
+            if _wjacc(callers_ref, callers_now, gone_q, new_q) < 0.5:
                 continue
             lead = None
             if extra == 1:
@@ -248,7 +250,7 @@ def recover_moves(prog, table):
             # what the body reads, by attribute name: a weak fingerprint that tells sibling helpers apart
             attrs_now = {x.attr for x in ast.walk(fi.node) if isinstance(x, ast.Attribute)}
             attrs_ref = set(table.get('attr_reads', {}).get(mq, ()))
-            score = _jacc(callers_ref, callers_now) + _jacc(set(refs_ref.get(mq, ())) - {mname}, mentions_now - {fi.name}) + \
+            score = _wjacc(callers_ref, callers_now, gone_q, new_q) + _jacc(set(refs_ref.get(mq, ())) - {mname}, mentions_now - {fi.name}) + \
                 (_jacc(attrs_ref, attrs_now) if attrs_ref else 0)
             cands.append((score, fi, extra, lead, sites))
         if not cands:
@@ -279,7 +281,7 @@ def recover_moves(prog, table):
                     c.func = ast.Attribute(value=ast.Name(id=f2.self_name, ctx=ast.Load()), attr=mname, ctx=ast.Load())
                 c.args = list(rest)
                 ast.fix_missing_locations(c)
-        out.append({'reference_name': mq, 'found_as': fi.qual, 'moved': True, 'leading_argument': lead})
+        out.append({'reference_name': mq, 'found_as': fi.qual, 'moved': True, 'leading_argument': lead, 'kind': kind})
     return out
 
 
@@ -1495,6 +1497,7 @@ class Inliner:
         self.max_rounds = max_rounds
         self.report = {'helpers': [], 'inlined_calls': [], 'left_as_calls': []}
         self._uid = 0
+        self.moved = {}
 
     # ---- candidates
     def candidates(self):
@@ -1655,6 +1658,11 @@ class Inliner:
             except Exception:
                 return None
             if r.kind == 'repo' and len(r.targets) == 1 and r.targets[0].qual in cands and r.targets[0] is not fi:
+                # a function that took the place of a reference method is inlined into the wrapper that stands for that method, and
+                # nowhere else: the other call sites are turned into calls of the wrapper once everything else has been inlined
+                w = self.moved.get(r.targets[0].qual)
+                if w is not None and fi.qual != w['wrapper']:
+                    return None
                 return r.targets[0]
             return None
 
@@ -1808,6 +1816,8 @@ class Inliner:
         if moved:
             self.report['recovered_renames'] = self.report['recovered_renames'] + moved
             prog.reindex()
+            for m in moved:
+                self.moved[m['found_as']] = {'wrapper': m['reference_name'], 'lead': m['leading_argument'], 'kind': m['kind']}
         more = recover_identifier_renames(prog, tbl)
         if more:
             self.report['recovered_renames'] = self.report['recovered_renames'] + more
@@ -1883,10 +1893,39 @@ class Inliner:
             cands = {q: prog.functions[q] for q in cands if q in prog.functions}
             if not any_change:
                 break
+        self._finish_moves()
         self._drop_unreferenced(cands)
         self._condition_locals()
         prog.reindex()
         return self.report
+
+    def _finish_moves(self):
+        """calls of a moved function that inlining has brought into methods of the class it came from go through the wrapper"""
+        prog = self.prog
+        for fq, w in self.moved.items():
+            fname = fq.rsplit('.', 1)[1]
+            holder, mname = w['wrapper'].rsplit('.', 1)
+            cls = prog.classes.get(holder)
+            if cls is None:
+                continue
+            for f2 in cls.methods.values():
+                if f2.qual == w['wrapper'] or not f2.self_name and w['kind'] != 'staticmethod':
+                    continue
+                for c in ast.walk(f2.node):
+                    if isinstance(c, ast.Call) and ((isinstance(c.func, ast.Name) and c.func.id == fname) or
+                                                    (isinstance(c.func, ast.Attribute) and c.func.attr == fname)):
+                        extra = 1 if w['lead'] else 0
+                        if extra:
+                            if not c.args or not f2.self_name or src(c.args[0]) != w['lead'].replace('@', f2.self_name, 1):
+                                continue
+                        if w['kind'] == 'staticmethod' or not f2.self_name:
+                            c.func = ast.Attribute(value=ast.Name(id=cls.name, ctx=ast.Load()), attr=mname, ctx=ast.Load())
+                        else:
+                            c.func = ast.Attribute(value=ast.Name(id=f2.self_name, ctx=ast.Load()), attr=mname, ctx=ast.Load())
+                        c.args = list(c.args[extra:])
+                        ast.fix_missing_locations(c)
+        if self.moved:
+            prog.reindex()
 
     def _condition_locals(self):
         self.report['counting_loops'] = {}
